@@ -837,10 +837,32 @@ class Ownership:
                "NC": "not-consumed", "REST": "free-changed-rest", "DICT": "dict-changed-by-failed-load", "CTX": "context-broken-by-load",
                "NOTFIRST": "not-first-sibling", "LOGLOC": "log-location-unbalanced", "ANYPTR": "any-update-keeps-caller-buffer"}
 
+    # crash signatures (stderr of the crashed case) -> tag; the first that matches
+    CRASHES = [
+        (r"lydxml_subtree_r.*Assertion `xmlctx->status == LYXML_ELEM_CONTENT'", "parse", "parse-multi-error-bad-meta-assert"),
+        (r"heap-use-after-free(?s:.*?)in lyd_mod_next_module", None, "validate-first-node-autodel-uaf"),
+        (r"lyd_insert_after_node.*Assertion `!node->next && \(node->prev == node\) && \(sibling != node\)'", "ins",
+         "insert-sibling-first-of-own-list-assert"),
+        (r"lydxml_subtree_r.*Assertion `xmlctx->status == LYXML_ELEM_CLOSE'", "parse", "xml-anyxml-mixed-content-assert"),
+        (r"(rb_sort_clb.*Assertion `val1->realtype == val2->realtype'|rb_compare_lists.*Assertion `n2->schema->nodetype & LYS_LIST')",
+         "ins", "insert-multi-node-lyds-merge-assert"),
+    ]
+
+    @staticmethod
+    def cmd_of(line, idx):
+        """words of command idx of a case line"""
+        f = line.split("\t")[1:]
+        return f[idx].split(" ") if 0 <= idx < len(f) else []
+
     def judge(self, line, out):
         if out.startswith("CRASH(") or out == "TIMEOUT":
-            m = _re.search(r"OWNCMD (-?\d+) (\S+)", getattr(self, "last_err", "") or "")
-            return ("crash:" + m.group(2) if m else "crash", "%s %s" % (out, ("in command %s (%s)" % (m.group(1), m.group(2))) if m else ""))
+            err = getattr(self, "last_err", "") or ""
+            m = _re.search(r"OWNCMD (-?\d+) (\S+)", err)
+            cmd = m.group(2) if m else None
+            for rx, c, tag in self.CRASHES:
+                if (c is None or c == cmd or (cmd or "").startswith(c)) and _re.search(rx, err):
+                    return (tag, "%s in command %s (%s)" % (out, m.group(1) if m else "?", cmd))
+            return ("crash:" + cmd if cmd else "crash", "%s %s" % (out, ("in command %s (%s)" % (m.group(1), cmd)) if m else ""))
         parts = out.split(" | ")
         if out.startswith("SETUP-FAILED"):
             return (None, out)
@@ -852,17 +874,26 @@ class Ownership:
             if f:
                 cmd, _, rest = p.partition(":")
                 rcs = _re.match(r"-?\d+|-|\?", rest)
-                tag = "%s:%s" % (self.FLAGTAG[f.group(1)], cmd)
+                tag = "%s:%s" % (self.FLAGTAG[f.group(1)], cmd.rstrip("1"))
                 if f.group(1) == "NC" and rcs and rcs.group(0) == "3":
                     tag = "merge-destruct-einval-source-not-consumed"
+                elif f.group(1) == "LINK" and "schema parent" in p and cmd.startswith("path"):
+                    tag = "new-path-nested-parent-toplevel-misplaced"
+                elif f.group(1) == "LINK" and cmd == "ins":
+                    tag = "insert-multi-node-stale-first-src"
                 return (tag, "command %d %s" % (i, p))
             if p.endswith(":?"):
                 return (None, "generator produced a malformed command %d: %s" % (i, p))
         du0, dr0, du1, dr1, w, k, kidx, kcmd, kerr, lsan = m.groups()
         if int(k):
             tag = "leak:%s" % kcmd + ("~" + kerr if kerr else "")
+            w_ = self.cmd_of(line, int(kidx))
             if kcmd == "apply" and kerr == "failed-to-find-metadata-for-node":
                 tag = "diff-apply-userord-create-nometa-leak"
+            elif kcmd in ("parse", "parsep") and kerr and len(w_) > 4 and w_[4].isdigit() and int(w_[4]) & _V_MULTI:
+                tag = "parse-multi-error-syntax-leak"
+            elif kcmd == "parsep" and not kerr:
+                tag = "parse-parent-nothing-parsed-implicit-leak"
             return (tag, "%s block(s) allocated from command %s (%s) on are never freed; %s" % (k, kidx, kcmd, parts[-1]))
         if (du0, dr0, du1, dr1) != ("0", "0", "0", "0"):
             return ("dict-delta", "dictionary strings/references left after everything was freed: " + parts[-1])
